@@ -737,8 +737,13 @@ def oracle_rodded(ctx, rng, n_cases):
         extra = dict(byp_ff=rng.uniform(0.01, 0.3), wwdir=rng.choice(['clockwise', 'counterclockwise']), sf=rng.uniform(1.0, 1.5))
         info = dict(n_ring=n_ring, n_duct=n_duct, dims=dims, flow=fr, corr=corr, const_props=const,
                     coolant=(cprops if const else cname), **extra)
+        # every third bundle is built with the Setup option param_update_tol > 0 (correlated parameters are then re-evaluated only
+        # when the coolant properties have changed by more than the tolerance); its limit is taken as the Reactor takes it: on
+        # the bundle as built, before any temperature has been given to it
+        tol = rng.choice([0.02, 0.1, 0.3]) if case % 3 == 1 else 0.0
+        info['param_update_tol'] = tol
         try:
-            rr = du.make_rr(dims, flow_rate=fr, coolant=coolant, corr=corr, **extra)
+            rr = du.make_rr(dims, flow_rate=fr, coolant=coolant, corr=corr, param_update_tol=tol, **extra)
         except (KeyError, TypeError, SystemExit, IndexError, ValueError) as ex:   # correlation combos that cannot be evaluated: C12's business
             ctx.count("oracle_rodded_skipped_build")
             continue
@@ -747,9 +752,14 @@ def oracle_rodded(ctx, rng, n_cases):
         rr._conv_approx = rng.random() < 0.4
         info['conv_approx'] = rr._conv_approx
         try:
+            if tol > 0:
+                dz_built, code_built = RR.calculate_min_dz(rr, t_lo, t_hi, False)
+                ctx.count("oracle_rodded_limit_on_bundle_as_built")
             rr = du.activate_rr(rr, t_lo)
             rr._conv_approx = info['conv_approx']
             dz, code = RR.calculate_min_dz(rr, t_lo, t_hi, False)
+            if tol > 0:
+                dz, code = dz_built, code_built
         except (KeyError, TypeError, SystemExit, ZeroDivisionError, IndexError, ValueError) as ex:
             ctx.count("oracle_rodded_skipped_eval")
             continue
